@@ -120,45 +120,110 @@ def rule_sig(ctx):
 
 
 # ------------------------------------------------------------------------------------------
-def _ladder(func: FuncInfo, var="func_args"):
-    """The if/elif chain dispatching on `func_args` buckets: [(test | None, body)]."""
-    for n in ast.walk(func.node):
-        if isinstance(n, ast.If) and var in ast.unparse(n.test) and "any(" in ast.unparse(n.test):
-            chain = []
-            cur = n
-            while True:
-                chain.append((cur.test, cur.body))
-                if len(cur.orelse) == 1 and isinstance(cur.orelse[0], ast.If):
-                    cur = cur.orelse[0]
-                else:
-                    chain.append((None, cur.orelse))
-                    break
-            return chain
-    raise AnalysisError(f"dispatch ladder on `{var}` not found in {func.qualname}")
+class SigPath:
+    """The statements a function executes for one callable signature: the function is walked
+    with the result of `get_func_args_by_kind(..)` bound to the signature's buckets; locals
+    computed from it are evaluated, `if`s whose test is decidable take one branch, the others
+    are walked on both sides.  Not tied to variable names or to if/elif versus early return."""
 
+    def __init__(self, prog, func, buckets):
+        self.prog, self.func, self.buckets = prog, func, buckets
+        self.env = {}
+        self.bound = False
+        self.subject = None      # expression whose signature is dispatched on
+        self.stmts = []          # simple statements on the path, in order
+        self.raised = None       # Raise reached on a fully decided path
+        self.returned = []
+        self.undecidable = []
+        self.ev = ConstEval(prog, func.module, {})
+        self.ev.env = self.env     # shared: bindings made on the way are visible to the evaluator
+        self._block(func.node.body, True)
 
-def _take(prog, func, chain, buckets):
-    for i, (test, body) in enumerate(chain):
-        if test is None:
-            return i, body
+    def _try(self, e):
         try:
-            v = ConstEval(prog, func.module, {"func_args": buckets}).ev(test)
-        except Undecidable as e:
-            return None, None
-        if v:
-            return i, body
-    return None, None
+            return True, self.ev.ev(e)
+        except Undecidable:
+            return False, None
+        except Exception:
+            return False, None
+
+    def _uses_env(self, e):
+        return any(isinstance(n, ast.Name) and n.id in self.env for n in ast.walk(e))
+
+    def _block(self, stmts, decided):
+        """Returns False when the path has ended (return / raise on a decided path)."""
+        for st in stmts:
+            if isinstance(st, ast.Assign) and len(st.targets) == 1 and isinstance(st.targets[0], ast.Name):
+                v = st.value
+                if isinstance(v, ast.Call) and norm(v.func).split(".")[-1] == "get_func_args_by_kind":
+                    self.env[st.targets[0].id] = self.buckets
+                    self.bound = True
+                    self.subject = v.args[0] if v.args else None
+                    self.stmts.append(st)
+                    continue
+                if self.bound and self._uses_env(v):
+                    ok, val = self._try(v)
+                    if ok:
+                        self.env[st.targets[0].id] = val
+                    else:
+                        self.env.pop(st.targets[0].id, None)
+                else:
+                    self.env.pop(st.targets[0].id, None)
+                self.stmts.append(st)
+                continue
+            if isinstance(st, ast.If):
+                if self.bound and self._uses_env(st.test):
+                    ok, val = self._try(st.test)
+                    if ok:
+                        if not self._block(st.body if val else st.orelse, decided):
+                            return False
+                        continue
+                    self.undecidable.append(norm(st.test))
+                a = self._block(st.body, False)
+                b = self._block(st.orelse, False)
+                continue
+            if isinstance(st, ast.Raise):
+                self.stmts.append(st)
+                if decided and self.bound:
+                    self.raised = st
+                    return False
+                continue
+            if isinstance(st, ast.Return):
+                self.stmts.append(st)
+                self.returned.append(st)
+                if decided:
+                    return False
+                continue
+            if isinstance(st, (ast.For, ast.While, ast.With)):
+                self.stmts.append(st)
+                continue
+            if isinstance(st, ast.Try):
+                self._block(st.body, False)
+                for h in st.handlers:
+                    self._block(h.body, False)
+                self._block(st.orelse, False)
+                self._block(st.finalbody, False)
+                continue
+            self.stmts.append(st)
+        return True
+
+    def after_binding(self):
+        out, seen = [], False
+        for st in self.stmts:
+            if seen:
+                out.append(st)
+            elif isinstance(st, ast.Assign) and isinstance(st.value, ast.Call) and norm(st.value.func).split(".")[-1] == "get_func_args_by_kind":
+                seen = True
+        return out
 
 
-def _reader_form(body):
-    """How the branch calls the constructor: (), (v), (*v), (**v), (*v|**v) or raise."""
+def _reader_form(path: SigPath):
+    """How the path calls the constructor: (), (v), (*v), (**v) or raise."""
     forms = set()
-    raises = False
-    for st in body:
+    subj = norm(path.subject) if path.subject is not None else "cond_method"
+    for st in path.after_binding():
         for n in ast.walk(st):
-            if isinstance(n, ast.Raise):
-                raises = True
-            if isinstance(n, ast.Call) and isinstance(n.func, ast.Name) and n.func.id == "cond_method":
+            if isinstance(n, ast.Call) and norm(n.func) == subj:
                 if not n.args and not n.keywords:
                     forms.add("()")
                 elif len(n.args) == 1 and isinstance(n.args[0], ast.Starred):
@@ -170,24 +235,65 @@ def _reader_form(body):
                     forms.add("**" if isinstance(n.keywords[0].value, ast.Name) else "**<transformed mapping>")
                 else:
                     forms.add("?")
-    return forms, raises
+    return forms, path.raised is not None
 
 
-def _writer_form(body):
-    txt = " ".join(ast.unparse(st) for st in body)
-    if any(isinstance(n, ast.Raise) for st in body for n in ast.walk(st)):
+def _emitted_var(writer: FuncInfo):
+    """The expression emitted as the spec value: the value of the single-item dict the writer builds."""
+    for n in ast.walk(writer.node):
+        if isinstance(n, ast.Dict) and len(n.keys) == 1 and n.keys[0] is not None and not isinstance(n.keys[0], ast.Constant):
+            return n.values[0]
+    return None
+
+
+def _classify_emitted(e):
+    if isinstance(e, ast.Constant):
+        return "None" if e.value is None else "other"
+    v = ast.unparse(e)
+    if "next(iter(" in v and "kwargs" in v:
+        return "single"
+    if "kwargs" in v and "next(" not in v:
+        return "dict"
+    if ".args" in v:
+        return "list"
+    return None
+
+
+def _writer_form(path: SigPath, writer: FuncInfo):
+    """None | single | dict | list (recognised), raise, other (a concrete value that is none of
+    these), ? (the emitted value could not be traced: undecided)."""
+    if path.raised is not None:
         return "raise"
-    for st in body:
-        if isinstance(st, ast.Assign) and isinstance(st.targets[0], ast.Name) and st.targets[0].id == "spec_val":
-            v = ast.unparse(st.value)
-            if v == "None":
-                return "None"
-            if "next(iter(" in v and "kwargs" in v:
-                return "single"
-            if "kwargs" in v and "next(" not in v:
-                return "dict"
-            if "args" in v:
-                return "list"
+    cur = _emitted_var(writer)
+    if cur is None:
+        return "?"
+    stmts = path.after_binding()
+
+    def assigns(name):
+        return [a for a in stmts if isinstance(a, ast.Assign) and isinstance(a.targets[0], ast.Name) and a.targets[0].id == name]
+    seen = set()
+    for _ in range(10):
+        if not isinstance(cur, ast.Name):
+            c = _classify_emitted(cur)
+            if c is not None and c != "other":
+                return c
+            # a conversion applied to another local: follow that local
+            loc = [n for n in ast.walk(cur) if isinstance(n, ast.Name) and isinstance(n.ctx, ast.Load) and assigns(n.id) and n.id not in seen]
+            if not loc:
+                return "other"
+            cur = loc[-1]
+            continue
+        if cur.id in seen:
+            return "?"
+        seen.add(cur.id)
+        asg = assigns(cur.id)
+        if not asg:
+            return "?"
+        # prefer the structural definition (mentions the stored arguments) over copies / conversions
+        defining = [a for a in asg if _classify_emitted(a.value) not in (None, "other")]
+        if defining:
+            return _classify_emitted(defining[-1].value)
+        cur = asg[-1].value
     return "?"
 
 
@@ -198,8 +304,6 @@ def rule_ladder(ctx):
     r = RuleResult("R-LADDER", floor=30)
     reader = condition_parser(prog)
     writer = condition_writer(prog)
-    rch = _ladder(reader)
-    wch = _ladder(writer)
     expect = {"()": "None", "v": "single", "*": "list", "**": "dict"}
     for (c, f, ent, call) in dsl_bindings(prog):
         rb, other = _bucket(f.params[1:])
@@ -207,16 +311,18 @@ def rule_ladder(ctx):
         inst = {"constructor": f.qualname, "reader_buckets": {k: len(v) for k, v in rb.items()}}
         r.instances.append(inst)
         where = f"{f.file}:{f.node.lineno}"
-        ri, rbody = _take(prog, reader, rch, rb)
-        wi, wbody = _take(prog, writer, wch, wb)
-        if ri is None or wi is None:
-            inst["verdict"] = "undecided (ladder test not evaluable)"
+        rpath = SigPath(prog, reader, rb)
+        wpath = SigPath(prog, writer, wb)
+        if not rpath.bound or not wpath.bound:
+            raise AnalysisError("dispatch on get_func_args_by_kind(..) not found in the condition reader / writer")
+        if rpath.undecidable or wpath.undecidable:
+            inst["verdict"] = f"undecided (dispatch test not evaluable: {(rpath.undecidable + wpath.undecidable)[:2]})"
             r.undecided.append(inst)
             continue
-        rforms, rraises = _reader_form(rbody)
-        wform = _writer_form(wbody)
-        inst["reader_branch"] = ri
-        inst["writer_branch"] = wi
+        rforms, rraises = _reader_form(rpath)
+        wform = _writer_form(wpath, writer)
+        ri = "raise" if rraises else "taken"
+        wi = "raise" if wpath.raised is not None else "taken"
         inst["reader_calls"] = sorted(rforms)
         inst["writer_emits"] = wform
         npos = len(rb["POSITIONAL_OR_KEYWORD"])
@@ -236,7 +342,11 @@ def rule_ladder(ctx):
             problems.append(f"reader branch {ri} never calls the constructor for signature {inst['reader_buckets']} (spec cannot build it)")
         elif want is not None and not (rforms <= want and rforms):
             problems.append(f"reader branch {ri} calls the constructor as {sorted(rforms)}, which does not bind its parameters {inst['reader_buckets']} (expected {sorted(want)})")
-        if wform in ("raise", "?"):
+        if wform == "?":
+            inst["verdict"] = "undecided (emitted spec value not traceable)"
+            r.undecided.append(inst)
+            continue
+        if wform in ("raise", "other"):
             problems.append(f"writer branch {wi} does not emit a spec value for this signature ({wform})")
         elif rforms and not any(expect.get(x) == wform for x in rforms):
             problems.append(f"writer emits `{wform}` but the reader consumes {sorted(rforms)} for the same callable")
@@ -380,24 +490,29 @@ def rule_conv(ctx):
     writer = condition_writer(prog)
     where = f"{writer.file}:{writer.node.lineno}"
     # reader: DTYPE_LOOKUP applied to scalar and to each element of a list?
+    def _itemwise(node, table_pred):
+        """A comprehension / loop applying a name->type table to each element."""
+        def sub_on_table(x):
+            return any(isinstance(y, ast.Subscript) and isinstance(y.value, ast.Name) and table_pred(y.value.id) for y in ast.walk(x))
+        for n in ast.walk(node):
+            if isinstance(n, ast.ListComp) and sub_on_table(n.elt):
+                return True
+            if isinstance(n, ast.For) and any(sub_on_table(b) for b in n.body):
+                return True
+        return False
     rsrc = ast.unparse(reader.node)
-    reader_list = "for i in spec_val" in rsrc and "DTYPE_LOOKUP[" in rsrc
-    # writer single branch: find the `single` branch body of the ladder
-    chain = _ladder(writer)
-    single = None
-    for test, body in chain:
-        if _writer_form(body) == "single":
-            single = body
-    if single is None:
-        raise AnalysisError("writer single-argument branch not found")
-    stxt = " ".join(ast.unparse(s) for s in single)
-    handles_list = False
-    for s in single:
-        for n in ast.walk(s):
-            if isinstance(n, ast.If) and "isinstance(spec_val" in ast.unparse(n.test) and "list" in ast.unparse(n.test):
-                handles_list = any("INV_DTYPE_LOOKUP[" in ast.unparse(b) for b in n.body)
-            if isinstance(n, (ast.ListComp,)) and "INV_DTYPE_LOOKUP[" in ast.unparse(n):
-                handles_list = True
+    reader_list = _itemwise(reader.node, lambda nm: "dtype_lookup" in nm.lower() and "inv" not in nm.lower())
+    # writer path for a single-parameter callable
+    wpath = SigPath(prog, writer, {"POSITIONAL_OR_KEYWORD": ["value"], "VAR_POSITIONAL": [], "VAR_KEYWORD": []})
+    if not wpath.bound:
+        raise AnalysisError("writer: dispatch on get_func_args_by_kind(..) not found")
+    if _writer_form(wpath, writer) != "single":
+        r.instances.append({"conversion": "writer path of a single-parameter callable", "verdict": "undecided (path not recognised)"})
+        r.undecided.append({"what": "writer single-argument path not recognised"})
+        single = []
+    else:
+        single = wpath.after_binding()
+    handles_list = any(_itemwise(st, lambda nm: "inv_dtype_lookup" in nm.lower()) for st in single) or not single
     inst = {"conversion": "type name <-> type for a list argument of a single-parameter callable", "reader_item_wise": reader_list, "writer_item_wise": handles_list}
     r.instances.append(inst)
     if reader_list and not handles_list:
@@ -414,12 +529,21 @@ def rule_conv(ctx):
                 rconv |= set(ConstEval(prog, reader.module).ev(n.comparators[0]))
             except Undecidable:
                 pass
-    cast_assign = None
+    # the writer's conversion predicate: the local that guards every use of the inverse table
+    from .astutil import facts_at
+    guards = None
     for n in ast.walk(writer.node):
-        if isinstance(n, ast.Assign) and isinstance(n.targets[0], ast.Name) and n.targets[0].id == "cast_types":
-            cast_assign = n.value
+        if isinstance(n, ast.Subscript) and isinstance(n.value, ast.Name) and "inv_dtype_lookup" in n.value.id.lower():
+            fs = {x for x in facts_at(prog, writer, n, lambda e: ast.unparse(e)) if x.isidentifier()}
+            guards = fs if guards is None else guards & fs
+    cast_assign = None
+    for g in sorted(guards or ()):
+        asg = [n for n in ast.walk(writer.node) if isinstance(n, ast.Assign) and isinstance(n.targets[0], ast.Name) and n.targets[0].id == g]
+        if len(asg) == 1:
+            cast_assign = asg[0].value
+            break
     if cast_assign is None:
-        raise AnalysisError("writer `cast_types` predicate not found")
+        raise AnalysisError("writer: the predicate guarding the type-name conversion (INV_DTYPE_LOOKUP) not found")
     from ..hints import dsl_bindings as _b
     labels = {}
     for cq, c in prog.classes.items():
@@ -480,7 +604,7 @@ def rule_conv(ctx):
     else:
         r.ok()
     # combinations recurse into both children under their own symbol
-    comb = prog.func("conditions.ConditionBinaryOp.to_json_like")
+    comb = prog.flat("conditions.ConditionBinaryOp.to_json_like")
     ctxt = ast.unparse(comb.node)
     inst = {"combination writer": norm(comb.node.body[-1])}
     r.instances.append(inst)
@@ -585,7 +709,7 @@ def rule_castinv(ctx):
     casting = prog.module("casting")
     dtype = module_table(prog, casting, "CAST_DTYPE_LOOKUP")
     lookup = module_table(prog, casting, "CAST_LOOKUP")
-    writer = prog.func("rules.Rule.to_json_like")
+    writer = prog.flat("rules.Rule.to_json_like")
     where = f"{writer.file}:{writer.node.lineno}"
     # statements computing `cast` in the writer: everything before the `out = {...}` assignment
     pre = []
